@@ -205,6 +205,9 @@ func TestVerifReplayUUContract(t *testing.T) {
 	/* The verifier's counterexample first. */
 	if fn := os.Getenv("VERIF_MODEL_FUNC"); "" != fn {
 		src, okS := verifModelSlice("src")
+		if !okS {
+			src, okS = verifModelSlice("b")
+		}
 		dst, okD := verifModelSlice("dst")
 		if okS {
 			if !okD {
@@ -217,9 +220,17 @@ func TestVerifReplayUUContract(t *testing.T) {
 			case "uu.AppendDecode":
 				msg = verifCheckDecode(dst, src)
 			case "uu.MaxEncodedLen":
-				msg = verifCheckEncode(nil, src)
+				if got, want := MaxEncodedLen(src), 63*(1+len(src)/45); got != want {
+					msg = fmt.Sprintf("MaxEncodedLen(%d bytes) = %d, contract says %d", len(src), got, want)
+				} else {
+					msg = verifCheckEncode(nil, src)
+				}
 			case "uu.MaxDecodedLen":
-				msg = verifCheckDecode(nil, src)
+				if got, want := MaxDecodedLen(src), 1+len(src)*16/3; got != want {
+					msg = fmt.Sprintf("MaxDecodedLen(%d bytes) = %d, contract says %d", len(src), got, want)
+				} else {
+					msg = verifCheckDecode(nil, src)
+				}
 			}
 			if "" != msg {
 				fail("(verifier counterexample src=%x dst len %d cap %d) %s", src, len(dst), cap(dst), msg)
